@@ -571,6 +571,21 @@ def check_filter(rep: Report, tb: Tbl, f: Tuple, cfgs: List[Tuple[str, bool, Opt
                     "verdict_per_k": vd, "baseline_scan_returned_k": sorted(k0)})
     if not ok:
         return
+    # a value set means the same whether a literal is listed once or twice (also on rows the statement leaves
+    # unspecified, e.g. NaN): `c in [v]` == `c in [v, v]`, `c not_in [v]` == `c not_in [v, v]`
+    if len(f) == 1 and f[0][1][0] == "set" and len(f[0][1][2]) == 1 and not cond_is_alias(f[0][1]):
+        col, c = f[0]
+        fd2 = filter_dict(types, ((col, ("set", c[1], (c[2][0], c[2][0]))),))
+        st2, res2 = run_api(tb.t, "scan", True, None, fd2)
+        rep.add("api_calls")
+        rep.add("set_filters_compared_with_their_duplicated_literal_form")
+        k2 = Counter(r.get("k") for r in res2) if st2 == "ok" else None
+        if k2 != k0:
+            rep.violation({"part": "semantics", "op": op, "literal": cond_literal_class(c), "row": "any",
+                           "problem": "single_literal_set_differs_from_the_same_literal_listed_twice", **base},
+                          {**detail0, "filter_twice": repr(fd2), "once_k": sorted(k0.elements()),
+                           "twice": repr(sorted(k2.elements()) if k2 is not None else res2)[:300]})
+            return
     # every other configuration must return exactly the baseline's rows, projected
     diffs: Dict[Tuple[str, bool, str], Tuple[str, str, Dict[str, Any]]] = {}
     for api, verify, proj, pn in cfgs:
